@@ -41,12 +41,12 @@ def run(ctx):
                        'shadow count <= true outstanding references (decrement before release is invoked, increment after retain returned)',
                        'an object whose releases all returned must have run all its destructors (quiescent check per batch)',
                        'depth counts levels below the root class; family c adds the real parsec_list_item_t level on top']
-    scale = 100 if thorough else 1
+    scale = 10 if thorough else 1
     jobs = []
     n = 0
     # (threads, batch, retains, objects, yield permille, yield us): small batches put many threads on the same counter
-    shapes = [(8, 256, 10, 9000, 0, 0), (16, 64, 12, 6000, 0, 0), (4, 4, 20, 5000, 0, 0), (8, 2, 22, 4000, 0, 0), (2, 16, 8, 6000, 0, 0),
-              (8, 8, 16, 5000, 200, 0), (3, 3, 20, 3000, 300, 20), (16, 16, 20, 4000, 100, 0)]
+    shapes = [(8, 256, 10, 6000, 0, 0), (16, 64, 12, 4000, 0, 0), (4, 4, 20, 3000, 0, 0), (8, 2, 22, 2500, 0, 0), (2, 16, 8, 4000, 0, 0),
+              (8, 8, 16, 3000, 200, 0), (3, 3, 20, 2000, 300, 20), (16, 16, 20, 2500, 100, 0)]
     for flavour in ('asan', 'rel'):
         for bname, exe in builds(ctx, flavour):
             for (t, b, rt, nobj, y, yus) in shapes:
